@@ -47,11 +47,11 @@ type pcall struct {
 	paySnap []byte
 	bad     bool // the entry list holds an unencodable record: the call must fail
 	// results
-	msg     *protocol.PackedForwardMessage
-	bits    []byte
-	err     error
-	snapStr []byte // deep copy of the stream / bytes at return time
-	snapOpt string
+	msg       *protocol.PackedForwardMessage
+	bits      []byte
+	err       error
+	snapStr   []byte // deep copy of the stream / bytes at return time
+	snapOpt   string
 	chunk     string // get_chunk: the string GetChunk returned (kept, not copied)
 	chunkSnap string // ... and a copy of its content at return time
 }
